@@ -1,11 +1,11 @@
-// Helper appended to a scratch copy of agdb/src/graph.rs: a 5-slot in-memory GraphData (slot 0 = free-list head /
+// Helper appended to a scratch copy of agdb/src/graph.rs: a 3-slot in-memory GraphData (slot 0 = free-list head /
 // node count) and a constructor, so that Kani can run GraphImpl::iter / ElementSearch over symbolic slot arrays.
 #[cfg(kani)]
 pub(crate) mod verif_kani_graph {
     use super::*;
     use crate::storage::verif_kani_helper::NullData;
 
-    pub const N: usize = 5;
+    pub const N: usize = 3;
 
     pub struct ArrData {
         pub f: [i64; N],
